@@ -290,6 +290,8 @@ def run_session(case):
         seqs = session.patterns()[case["patterns"][0]::case["patterns"][1]]
     else:
         seqs = list(session.sequences(case["depth"], first=case.get("first")))
+        if case.get("shard"):
+            seqs = seqs[case["shard"][0]::case["shard"][1]]
     for seq in seqs:
         s = session.Session(cfg, case["base"], [coherent_monitor("session")])
         s.run(seq, after_op=session.accessor_oracle)
@@ -351,11 +353,9 @@ def plan(ctx):
     sess = []
     for cfg in (dict(n_particles=8, d=1, ess_ratio=1.0, n_total=10 ** 6, eval="blobs", clustering=False, resample="mult"),
                 dict(n_particles=8, d=2, ess_ratio=1.0, n_total=10 ** 6, eval="scalar", clustering=True, resample="syst", sample="rwm")):
-        for first in itertools.product(["S", "V0", "V1", "L0", "L1"], repeat=2):
-            from mc import session as _sess
-            if not _sess.valid(first) or first[0] == "V1":  # by symmetry of the two slots the first save may be taken to slot 0
-                continue
-            sess.append({"kind": "session", "cfg": cfg, "base": ctx.seed, "depth": 7 if th else 5, "first": list(first)})
+        if th or cfg["d"] == 1:  # quick: the exhaustive part on the first configuration only; the longer patterns on both
+            for sh in range(32):
+                sess.append({"kind": "session", "cfg": cfg, "base": ctx.seed, "depth": 7 if th else 5, "shard": [sh, 32]})
         for sh in range(8):
             sess.append({"kind": "session", "cfg": cfg, "base": ctx.seed, "depth": 9, "patterns": [sh, 8]})
     ctx.explore("session-sequences", sess)
